@@ -90,6 +90,8 @@ def observe(res, d, fpath=None):
             m = re.match(r"#META\s+(\w+):\s*(.*)$", line.strip())
             if m:
                 key, val = m.group(1), m.group(2)
+                if key in o["oc"]:
+                    continue          # a repeated key: the first one is the one a reader of the file uses
                 if key in ("CTE_AREAREF", "CTE_KEXP"):
                     o["oc"][key] = milli(val)
                 elif key in ("CTE_RED1", "CTE_RED2"):
@@ -103,10 +105,10 @@ def c19_case(rec, root):
     """builds files + argv for one Cli.tla configuration, runs it, returns the trace event"""
     c = rec["cfg"]
     d = tempfile.mkdtemp(dir=root)
-    V = {"a": {"valid": "2.25", "edge": "0.001", "range": "-3", "text": "abc"},
-         "am": {"valid": "4.75", "edge": "0.001", "range": "0", "text": "xyz"},
-         "k": {"valid": "0.25", "edge": "1", "range": "1.5", "text": "abc"},
-         "km": {"valid": "0.35", "edge": "0", "range": "-0.1", "text": "k"}}
+    V = {"a": {"valid": "2.25", "fine": "0.004", "edge": "0.001", "range": "-3", "text": "abc"},
+         "am": {"valid": "4.75", "fine": "1.234", "edge": "0.001", "range": "0", "text": "xyz"},
+         "k": {"valid": "0.25", "fine": "0.125", "edge": "1", "range": "1.5", "text": "abc"},
+         "km": {"valid": "0.35", "fine": "0.375", "edge": "0", "range": "-0.1", "text": "k"}}
     # non-numeric text: a word, or the spelling of "not a number" that a float parser accepts
     if rec.get("case", 0) % 3 == 1:
         V = {k: dict(v) for k, v in V.items()}
